@@ -1,6 +1,7 @@
 /* C19 by reduction: a codec call on one structure writes NO object of static storage duration (so calls on
- * distinct structures share only read-only memory: no data race, and every call returns what it returns alone),
- * plus sequential non-interference: X on s1, Y on s2, X on a copy of s1 again gives the same bytes.
+ * distinct structures share only read-only memory: no data race, and every call returns what it returns alone).
+ *   -DOPS_ENC : validate + encode            -DOPS_DEC : decode arbitrary octets, decode a valid encoding, free
+ *   -DOPS_SEQ : sequential non-interference: encode s1, (validate/encode/decode on others), encode a copy of s1 again
  * verif_snapshot_all/verif_compare_all are regenerated from the goto binary's symbol table on every run. */
 #include "verif.h"
 #include "ref_enc.h"
@@ -16,36 +17,54 @@ struct inputs { struct tval v1, v2; uint8_t junk[NBYTES]; uint8_t jsize; };
 void verif_snapshot_all(void);
 void verif_compare_all(void);
 extern int verif_snapshot_count;
+static size_t ref_enc_any(const struct tval *v, uint8_t *out, size_t cap) {
+#if defined(SYN_DER)
+    return ref_der(v, out, cap);
+#elif defined(SYN_OER)
+    return ref_oer(v, out, cap);
+#else
+    return ref_uper(v, out, cap);
+#endif
+}
 void harness(void) {
     VERIF_INPUTS();
     ASSUME(tv_valid(&in.v1) && tv_valid(&in.v2) && in.jsize <= NBYTES);
     CHECK(verif_snapshot_count > 0, "the snapshot covers at least one static object (harness sanity)");
-    TYPE_T a, b; struct tv_store sa, sb;
-    tv_build(&in.v1, &a, &sa); tv_build(&in.v2, &b, &sb);
+    TYPE_T a; struct tv_store sa;
+    tv_build(&in.v1, &a, &sa);
     verif_snapshot_all();
-    /* X: encode a */
+#if defined(OPS_ENC)
+    (void)asn_check_constraints(&TYPE_DEF, &a, 0, 0);
     struct sink s1; sink_init(&s1);
-    ssize_t n1 = do_encode(&TYPE_DEF, &a, sink_cb, &s1);
-    /* Y: everything else on other structures: validate, encode, decode arbitrary bytes, decode valid bytes, free */
-    (void)asn_check_constraints(&TYPE_DEF, &b, 0, 0);
-    struct sink s2; sink_init(&s2);
-    (void)do_encode(&TYPE_DEF, &b, sink_cb, &s2);
+    (void)do_encode(&TYPE_DEF, &a, sink_cb, &s1);
+#elif defined(OPS_DEC)
     uint8_t *d = exact_copy(in.junk, in.jsize);
     TYPE_T *g = 0;
     (void)do_decode(&TYPE_DEF, (void **)&g, d, in.jsize);
     if(g) ASN_STRUCT_FREE(TYPE_DEF, g);
     free(d);
+    uint8_t enc[TV_MAXENC]; size_t len = ref_enc_any(&in.v2, enc, sizeof(enc));
+    ASSUME(len <= TV_MAXENC);
+    uint8_t *d2 = exact_copy(enc, len);
     TYPE_T *back = 0;
-    asn_dec_rval_t dr = do_decode(&TYPE_DEF, (void **)&back, s2.buf, s2.len <= SINK_MAX ? s2.len : 0);
-    (void)dr;
+    (void)do_decode(&TYPE_DEF, (void **)&back, d2, len);
     if(back) ASN_STRUCT_FREE(TYPE_DEF, back);
-    /* X again on an identical structure */
+    free(d2);
+#else /* OPS_SEQ */
+    struct sink s1; sink_init(&s1);
+    ssize_t n1 = do_encode(&TYPE_DEF, &a, sink_cb, &s1);
+    TYPE_T b; struct tv_store sb;
+    tv_build(&in.v2, &b, &sb);
+    (void)asn_check_constraints(&TYPE_DEF, &b, 0, 0);
+    struct sink s2; sink_init(&s2);
+    (void)do_encode(&TYPE_DEF, &b, sink_cb, &s2);
     TYPE_T a2; struct tv_store sa2;
     tv_build(&in.v1, &a2, &sa2);
     struct sink s3; sink_init(&s3);
     ssize_t n3 = do_encode(&TYPE_DEF, &a2, sink_cb, &s3);
-    verif_compare_all();
     CHECK(n1 == n3 && s1.len == s3.len, "same result for the same call before and after unrelated calls");
     if(s1.len == s3.len) for(size_t i = 0; i < TV_MAXENC; i++) if(i < s1.len) CHECK(s1.buf[i] == s3.buf[i], "same bytes before and after unrelated calls");
+#endif
+    verif_compare_all();
     WITNESS();
 }
